@@ -565,7 +565,22 @@ func (c *Ctx) originsDeep(v ssa.Value, depth int, stop ...string) []Origin {
 						if k, isC := strip(rv).(*ssa.Const); isC && isZeroConst(k) {
 							continue
 						}
-						out = append(out, c.originsDeep(rv, depth+1, stop...)...)
+						for _, io := range c.originsDeep(rv, depth+1, stop...) {
+							// a value the helper merely hands back is the caller's argument
+							if p, isP := io.Value.(*ssa.Parameter); isP && io.Kind == "param" && p.Parent() == cal {
+								mapped := false
+								for j, q := range cal.Params {
+									if q == p && j < len(call.Call.Args) {
+										out = append(out, c.originsDeep(call.Call.Args[j], depth+1, stop...)...)
+										mapped = true
+									}
+								}
+								if mapped {
+									continue
+								}
+							}
+							out = append(out, io)
+						}
 						expanded = true
 					}
 					if expanded {
